@@ -4,9 +4,11 @@ go 1.22.0
 
 require (
 	github.com/attestantio/dirk v0.0.0
+	github.com/herumi/bls-eth-go-binary v1.36.1
 	github.com/rs/zerolog v1.33.0
 	github.com/wealdtech/eth2-signer-api v1.7.2
 	github.com/wealdtech/go-eth2-types/v2 v2.8.2
+	github.com/wealdtech/go-eth2-wallet-distributed v1.2.1
 	github.com/wealdtech/go-eth2-wallet-encryptor-keystorev4 v1.4.1
 	github.com/wealdtech/go-eth2-wallet-nd/v2 v2.5.0
 	github.com/wealdtech/go-eth2-wallet-store-scratch v1.7.2
@@ -46,7 +48,6 @@ require (
 	github.com/googleapis/gax-go/v2 v2.13.0 // indirect
 	github.com/grpc-ecosystem/go-grpc-middleware v1.4.0 // indirect
 	github.com/hashicorp/hcl v1.0.0 // indirect
-	github.com/herumi/bls-eth-go-binary v1.36.1 // indirect
 	github.com/jackc/puddle v1.3.0 // indirect
 	github.com/jmespath/go-jmespath v0.4.0 // indirect
 	github.com/klauspost/compress v1.17.9 // indirect
@@ -79,7 +80,6 @@ require (
 	github.com/wealdtech/go-ecodec v1.1.4 // indirect
 	github.com/wealdtech/go-eth2-util v1.8.2 // indirect
 	github.com/wealdtech/go-eth2-wallet v1.17.0 // indirect
-	github.com/wealdtech/go-eth2-wallet-distributed v1.2.1 // indirect
 	github.com/wealdtech/go-eth2-wallet-hd/v2 v2.7.1 // indirect
 	github.com/wealdtech/go-eth2-wallet-keystore v1.0.0 // indirect
 	github.com/wealdtech/go-eth2-wallet-store-filesystem v1.18.1 // indirect
